@@ -17,6 +17,13 @@ case "$ID" in C14) RACE="-race";; esac
 if ! $VGO build $RACE -tags verif -modfile="$W/go.mod" -overlay "$W/overlay.json" -o "$W/vworker" ./cmd/vworker >"$W/build.log" 2>&1; then
   cat "$W/build.log"; echo "INFRA: harness build failed (the repository no longer compiles under instrumentation)"; exit 2
 fi
+if [ "$ID" = "C13" ]; then
+  # the CLI and the library driver, built from the working tree without instrumentation
+  (cd "$VERIF_REPO" && $VGO build -o "$W/dtr" . ) >"$W/cli.log" 2>&1 || { cat "$W/cli.log"; echo "INFRA: CLI build failed"; exit 2; }
+  sed "s#=> /repo#=> $VERIF_REPO#" go.mod > "$W/plain.mod"; cp "$W/go.sum" "$W/plain.sum"
+  $VGO build -modfile="$W/plain.mod" -o "$W/c13drv" ./cmd/c13drv >"$W/drv.log" 2>&1 || { cat "$W/drv.log"; echo "INFRA: driver build failed"; exit 2; }
+  export VERIF_C13_CLI="$W/dtr" VERIF_C13_DRV="$W/c13drv"
+fi
 if [ "$MODE" = "--replay" ]; then
   [ -n "$RACE" ] && export GORACE="log_path=$W/race halt_on_error=0 exitcode=0 history_size=5"
   "$W/vworker" replay "$ID" "$3"; exit $?
